@@ -173,7 +173,9 @@ class Interp:
             inner_t = t["to"] if t["k"] in ("ref", "ptr") else None
             cell = ("k", key)
             if cell not in S.cells:
-                S.cells[cell] = self.cv_pointee(v["ref"], inner_t, S, key)
+                # the pointee gets its own key: a reference to a reference (`&&str` of a promoted `&"lit"`) must not
+                # end up stored in the cell it points to
+                S.cells[cell] = self.cv_pointee(v["ref"], inner_t, S, key + ("*",))
             return Ref(cell, (), False)
         if "tup" in v:
             if t["k"] == "tuple":
@@ -408,13 +410,26 @@ class Interp:
         v = S.cells.get(cell, BOT)
         return self.nav(S, v, path, site, cell)
 
+    @staticmethod
+    def memo_path(path, S=None):
+        """Key of an element read: `s[0]` (index operand with the constant value 0) and the pattern / `first()` form
+        (constant index 0 from the start) are the same element."""
+        last = path[-1]
+        if last[0] == "ci" and not last[3]:
+            return path[:-1] + (("at", last[1]),)
+        if last[0] == "idx" and S is not None:
+            iv = S.ivof(last[1])
+            if D.is_point(iv):
+                return path[:-1] + (("at", D.lo(iv)),)
+        return path
+
     def nav(self, S, v, path, site, cell=None):
         variant = None
         for n, pe in enumerate(path):
             tag = pe[0]
             if cell is not None and isinstance(v, Seq) and tag in ("idx", "ci") and v.elem is not None:
                 # same element of the same sequence value read again in this straight-line state
-                mk = (cell, tuple(path[: n + 1]))
+                mk = (cell, self.memo_path(tuple(path[: n + 1]), S))
                 hit = S.emem.get(mk)
                 if hit is not None and hit[0] is v:
                     v = hit[1]
